@@ -8,7 +8,11 @@ package main
 
 import (
 	"fmt"
+	"go/constant"
+	"go/token"
+	"go/types"
 	"sort"
+	"strings"
 
 	"golang.org/x/tools/go/ssa"
 )
@@ -167,4 +171,99 @@ func init() {
 		}
 		fmt.Println("# console sends", n)
 	}
+}
+
+// R17.5: a secret written into a query string by hand is query-escaped.
+// The masks stop at the next `&` (`(password=).*?(&|$)`, `[?]key=.*?&`).  url.Values.Encode and
+// url.QueryEscape turn `&` into %26; url.PathEscape and a raw value do not, so a secret that
+// contains `&` is cut by the mask and its tail is logged.
+func ruleSecretQueryEscaped(p *Prog, r *Report) {
+	r.rule("R17.5", "A secret placed behind `password=`, `key=`, `token=` in a string built by hand (concatenation or a plain Sprintf) is the result of url.QueryEscape, or an audited exception (tables/secret_query_audit.tsv). The masks that hide these values in logs stop at the next `&`; a value that may contain `&` (raw, or url.PathEscape) is masked only up to there.")
+	audited := map[string]string{}
+	for _, row := range readTable("secret_query_audit.tsv", 3) {
+		audited[row[0]+"|"+row[1]] = row[2]
+	}
+	markers := []string{"password=", "passwd=", "key=", "token="}
+	n := 0
+	check := func(fn *ssa.Function, in ssa.Instruction, ops []ssa.Value) {
+		for i, o := range ops {
+			s, ok := constString(o)
+			if !ok || i+1 >= len(ops) {
+				continue
+			}
+			for _, m := range markers {
+				if !strings.HasSuffix(s, m) {
+					continue
+				}
+				v := ops[i+1]
+				if mi, ok := v.(*ssa.MakeInterface); ok {
+					v = mi.X
+				}
+				if _, isC := v.(*ssa.Const); isC {
+					continue
+				}
+				n++
+				esc := false
+				if c, ok := v.(*ssa.Call); ok {
+					if f := c.Common().StaticCallee(); f != nil && rawShortName(f) == "net/url.QueryEscape" {
+						esc = true
+					}
+				}
+				k := fnDisplay(fn) + "|" + m
+				why, ok := audited[k]
+				r.add("R17.5", "secret-escaped|"+k, p.ipos(in), "the value behind `"+m+"` in "+fnDisplay(fn)+" is query-escaped ("+why+")", esc || ok,
+					"the value is put into the query as it is (or path-escaped): when it contains `&` the mask ends there and the rest of the secret is logged")
+			}
+		}
+	}
+	for _, fn := range allModFuncs(p) {
+		if fn.Synthetic != "" {
+			continue
+		}
+		for _, b := range fn.Blocks {
+			for _, in := range b.Instrs {
+				switch x := in.(type) {
+				case *ssa.BinOp:
+					if x.Op != token.ADD || !isStringType(x.Type()) {
+						continue
+					}
+					root := true
+					for _, ref := range *x.Referrers() {
+						if bo, ok := ref.(*ssa.BinOp); ok && bo.Op == token.ADD && isStringType(bo.Type()) {
+							root = false
+						}
+					}
+					if !root {
+						continue
+					}
+					var ops []ssa.Value
+					concatLeaves(x, &ops)
+					check(fn, x, ops)
+				case *ssa.Call:
+					f := x.Common().StaticCallee()
+					if f == nil || rawShortName(f) != "fmt.Sprintf" || len(x.Common().Args) != 2 {
+						continue
+					}
+					format, ok := constString(x.Common().Args[0])
+					el, isLit := sliceLitElems(x.Common().Args[1])
+					if !ok || !isLit {
+						continue
+					}
+					pieces, verbs, plain := splitFormat(format)
+					if !plain || verbs != len(el) {
+						continue
+					}
+					var ops []ssa.Value
+					for i, pc := range pieces {
+						ops = append(ops, ssa.NewConst(constant.MakeString(pc), types.Typ[types.String]))
+						if i < len(el) {
+							ops = append(ops, el[i])
+						}
+					}
+					check(fn, x, ops)
+				}
+			}
+		}
+	}
+	r.add("R17.5", "secret-query-sites", "", fmt.Sprintf("%d hand-built query values behind a secret's name examined", n), true, "")
 }
